@@ -312,6 +312,28 @@ func (c *AttrCache) Invalidate(path string) {
 	delete(c.cache, path)
 }
 
+// invalidateSubtree removes the entry for root and for every path below it
+// (positive and negative). Used when a whole directory moves or is replaced.
+func (c *AttrCache) invalidateSubtree(root string) {
+	c.mu.Lock()
+	defer c.mu.Unlock()
+
+	for path := range c.cache {
+		if isWithin(path, root) {
+			c.removeFromAccessLog(path)
+			delete(c.cache, path)
+		}
+	}
+}
+
+// isWithin reports whether path is root itself or lies below it.
+func isWithin(path, root string) bool {
+	if path == root || root == "/" {
+		return true
+	}
+	return len(path) > len(root) && path[:len(root)] == root && path[len(root)] == '/'
+}
+
 // Clear removes all entries from the cache
 func (c *AttrCache) Clear() {
 	c.mu.Lock()
@@ -628,6 +650,19 @@ func (c *DirCache) Invalidate(path string) {
 
 	c.removeFromAccessList(path)
 	delete(c.entries, path)
+}
+
+// invalidateSubtree removes the listing of root and of every directory below it.
+func (c *DirCache) invalidateSubtree(root string) {
+	c.mu.Lock()
+	defer c.mu.Unlock()
+
+	for path := range c.entries {
+		if isWithin(path, root) {
+			c.removeFromAccessList(path)
+			delete(c.entries, path)
+		}
+	}
 }
 
 // Clear removes all entries from the cache
